@@ -42,6 +42,10 @@ def client_pass(tier):
         cov["distinct_nontrivial"] += r2["nontrivial"]
         if r2["timed_out"]:
             res["timed_out"] = True
+        if tier == "thorough":
+            cov["k2_closure"] = ("second edit (delete / duplicate / drop or empty an attribute) on top of every structural first edit: %d distinct "
+                                 "k=2 mutants; capped at 2500 per seed, which cut %d of the seeds short (k=1 is complete for all)"
+                                 % (res["counters"].get("k2_mutants", 0), res["counters"].get("k2_capped_seeds", 0)))
     return post
 
 
